@@ -195,6 +195,7 @@ class SimNet:
         self.n_delivered = 0
         self.pid = 0
         self.log_unroutable: list = []
+        self.injected_log: list = []
         self.receive_errors: list = []
 
     # ----------------------------------------------------------- topology
@@ -285,6 +286,7 @@ class SimNet:
                faults: bool = False) -> Pkt:
         """A datagram put on the wire by the harness/adversary, appearing to come from ``src``."""
         pkt = self._mk(src, dst, data, None, label, None, injected=True)
+        self.injected_log.append(pkt)
         if faults:
             self._route(pkt, None)
         else:
